@@ -43,9 +43,9 @@ def cut_points(info, rng, exhaustive_limit, stride_points):
 
 
 def jobs(tier, seed, pool):
-    files = inputs.stored_files(tier, seed, PROP)
-    exhaustive_limit = 12500 if tier == 'quick' else 33000
-    stride_points = 250 if tier == 'quick' else 4000
+    files = inputs.stored_files(tier, seed, PROP) + inputs.extra_stored_files(tier, seed, PROP)
+    exhaustive_limit = 8000 if tier == 'quick' else 33000
+    stride_points = 400 if tier == 'quick' else 4000
     out = []
     infos = inputs.describe_all(pool, files, PROP)
     for init, info in zip(files, infos):
